@@ -1,6 +1,8 @@
 import HpxVerif.Model.Topo
 import HpxVerif.Lemmas.TopoGen
 
+set_option autoImplicit false   -- an unknown identifier in a statement is an error, never a new variable
+
 /-!
 # C04 — neighbours are exactly the geometrically adjacent cells, correctly labelled
 
